@@ -283,17 +283,21 @@ def run(ctx):
     ctx.rule("R-5.2", "the restart file written after a step is written after the re-sorting (commit is final)", floor=1)
     ctx.rule("R-5.4", "in-flight jobs are persisted in the ensemble-index unit that the restart reads back (shared with C08 R-8.7)", floor=4)
     ctx.rule("R-5.3", "the re-sort only moves idle paths: busy-path membership tests compare like with like (shared with C03 R-3.8)", floor=4)
+    ctx.rule("R-5.6", "the re-sort and the weight recording test candidates against the whole busy set (shared with C03 R-3.10)", floor=2)
     ctx.rule("R-5.5", "in the permanent code a length guard implies that the index it protects is in range (the idle block may consist of [0-] alone)", floor=1)
     ctx.rule("R-5.1", "path-number counter discipline (never reused, also across restarts)", floor=5)
     ctx.attempt(r51, ctx)
     ctx.attempt(r53, ctx)
     ctx.attempt(r54, ctx)
     ctx.attempt(r55, ctx)
+    from .shared import whole_busy_set
+    ctx.attempt(whole_busy_set, ctx, "R-5.6", " - the re-sort can then move a busy path")
     from .shared import commit_is_final
     ctx.attempt(commit_is_final, ctx, "R-5.2")
 
 
 VARIANTS = [
+    B("c05-sort-drops-last-busy-path", REPEX, "            locks = self.locked_paths()\n            zero_idx", "            locks = self.locked_paths()[:-1]\n            zero_idx", "R-5.6", control=True, why="seeded C03_d"),
     B("c05-only-minus-guard-off-by-one", REPEX, "        if len(sorted_non_locked_T) <= offset:\n            equal_pos = True", "        if len(sorted_non_locked_T) < offset:\n            equal_pos = True", "R-5.5", control=True, why="seeded C05_c"),
     K("c05-keep-only-minus-guard-flipped", REPEX, "        if len(sorted_non_locked_T) <= offset:\n            equal_pos = True", "        if offset >= len(sorted_non_locked_T):\n            equal_pos = True"),
     B("c05-increment-under-delete-old", REPEX, "                traj_num += 1\n                if (\n                    self.config[\"output\"].get(\"delete_old\", False)\n                    and pn_old > self.n - 2\n                ):\n", "                if (\n                    self.config[\"output\"].get(\"delete_old\", False)\n                    and pn_old > self.n - 2\n                ):\n                    traj_num += 1\n", "R-5.1", control=True),
